@@ -1,6 +1,9 @@
 """C16 (b): compact-block reconstruction -- CompactBlock.tla model-checked exhaustively, every terminal case replayed
 on the real Relayer::reconstruct_block and the relay verifiers (CompactBlockVerifier, BlockTransactionsVerifier,
-BlockUnclesVerifier)."""
+BlockUnclesVerifier); every distinct compact block + local state also goes, as a RelayMessage, through the real protocol handler
+(Relayer::received -> CompactBlockProcess::execute) with a recording network context: the GetBlockTransactions request the peer
+gets must name exactly the positions the specification reports missing, and the block is handed to the chain exactly when the
+specification reconstructs it."""
 import json
 import os
 
@@ -33,7 +36,7 @@ def run_part(c, tier):
     summ, _ = c16.replay_recon(c, cases)
     t = summ["tally"]
     need = ["r1:Block", "r1:Missing", "r1:Collided", "r1:Error", "r2:Block", "verdict:reject", "answer:honest:ok", "answer:wrong-tx:reject",
-            "answer:wrong-uncle:reject"]
+            "answer:wrong-uncle:reject", "process:Block", "process:Missing", "process:rejected"]
     missing = [k for k in need if t.get(k, 0) == 0]
     if summ["cases"] != len(cases) or missing:
         raise V.ToolError("vacuous reconstruction replay: %s missing %s" % (summ, missing))
